@@ -221,6 +221,8 @@ fn create_staging_dir(output_dir: &Path) -> Result<PathBuf> {
 /// After a successful swap-in, failing to delete the moved-aside previous
 /// copy is reported as a warning, not as command failure.
 fn commit_staging_dir(staging_dir: &Path, output_dir: &Path) -> Result<()> {
+    #[cfg(feature = "verif-hooks")]
+    use crate::verif_hooks::fs;
     commit_staging_dir_impl(staging_dir, output_dir, |src, dst| fs::rename(src, dst))
 }
 
